@@ -19,6 +19,7 @@ run_demo() {  # prints PASS or FAIL
     OSMT=$wt/_build/opensmt bash $sd/compare.sh $sd/demo.smt2 >> $log 2>&1 || ok=0
   fi
   if [ -f $sd/run_demo.sh ]; then
+    [ -f $sd/build_demo.sh ] && bash $sd/build_demo.sh >> $log 2>&1
     bash $sd/run_demo.sh $wt/_build/opensmt >> $log 2>&1 || ok=0
   fi
   [ $ok = 1 ] && echo PASS || echo FAIL
